@@ -193,4 +193,21 @@ def exTrace : List MStep :=
    .child 1 (.ok "x" true "" "a"), .child 1 (.ok "x" true "" "b")]
 example : (runMerge { n := 2 } exTrace).2 = [.ok "x" true "" "a", .ok "x" false "" "blocked: no"] := by decide
 
+/-- **the three pending tables are independent**: a client CLOSE touches the subscription table only — a COUNT or an
+    EVENT in flight under the same id keeps its row (what seed C09-G breaks) -/
+theorem close_leaves_pending (st : MergeSt) (sub : String) :
+    (st.client (.close sub)).cnt = st.cnt ∧ (st.client (.close sub)).ok = st.ok := ⟨rfl, rfl⟩
+
+/-- a child's CLOSED, NOTICE or AUTH is handed on as it is and changes no table — in particular a CLOSED that answers a
+    REQ does not release a pending COUNT of the same id (what seed C09-I breaks) -/
+theorem child_closed_inert (st : MergeSt) (i : Nat) (sub pfx msg : String) :
+    st.child i (.closed sub pfx msg) = (st, .ok (some (.closed sub pfx msg))) := rfl
+
+theorem child_notice_inert (st : MergeSt) (i : Nat) (msg : String) :
+    st.child i (.notice msg) = (st, .ok (some (.notice msg))) := rfl
+
+/-- a REQ and a COUNT open rows in different tables even when they use the same id -/
+theorem req_count_separate (st : MergeSt) (sub : String) (fs : List Filter) :
+    (st.client (.req sub fs)).cnt = st.cnt ∧ (st.client (.count sub fs)).req = st.req := ⟨rfl, rfl⟩
+
 end Moc.C09
